@@ -1,1 +1,52 @@
-//! Engine-K harnesses for time arithmetic (C16), second verdict next to engine M.
+//! Engine-K harnesses for time arithmetic (C16): an independent second verdict, by bit-blasting the
+//! compiled `fixed` code itself, for the obligations engine M decides through summaries (everything
+//! that does not divide by 10^9).
+use crate::datastructures::common::{TimeInterval, WireTimestamp};
+use crate::time::{Duration, Time};
+use super::gen::*;
+
+fn tb(t: Time) -> u128 { t.nanos().to_bits() }
+fn db(d: Duration) -> i128 { d.nanos().to_bits() }
+
+// @harness c16_k_add_sub_roundtrip
+// @props C16
+// @tier quick
+// @timeout 600
+// @functions Add<Duration> for Time, Sub<Duration> for Time, Sub<Time> for Time, Neg for Duration, Duration::from_fixed_nanos
+// @bounds every Time below 2^63 ns (2^-32 ns resolution) and every Duration |d| < 2^95 * 2^-32 ns with t + d >= 0; the compiled fixed-crate code is executed, nothing is summarised
+#[kani::proof]
+#[kani::unwind(5)]
+fn c16_k_add_sub_roundtrip() {
+    let t = any_time();
+    let d = any_duration_bits(96);
+    kani::assume(tb(t) as i128 + db(d) >= 0);
+    let s = t + d;
+    assert!(tb(s) as i128 == tb(t) as i128 + db(d), "t + d is not exact");
+    assert!(s - d == t, "(t + d) - d != t");
+    assert!(s - t == d, "(t + d) - t != d");
+    kani::cover!(db(d) < 0, "negative duration");
+    kani::cover!(db(d) > 0 && (db(d) & 0xffff_ffff) != 0, "positive duration with sub-ns part");
+}
+
+// @harness c16_k_wire_and_interval
+// @props C16
+// @tier quick
+// @timeout 600
+// @functions From<WireTimestamp> for Time, From<TimeInterval> for Duration, From<Duration> for TimeInterval
+// @bounds every wire timestamp (seconds < 2^48, any u32 nanoseconds), every i64 TimeInterval bit pattern, every Duration within +-2^79 units
+#[kani::proof]
+#[kani::unwind(5)]
+fn c16_k_wire_and_interval() {
+    let w = any_wire_timestamp();
+    let t = Time::from(w);
+    assert!(tb(t) == ((w.seconds as u128) * 1_000_000_000 + w.nanos as u128) << 32, "WireTimestamp -> Time is not exact");
+    let b: i64 = kani::any();
+    let ti = TimeInterval(fixed::types::I48F16::from_bits(b));
+    let d = Duration::from(ti);
+    assert!(db(d) == (b as i128) << 16, "TimeInterval -> Duration is not exact");
+    assert!(TimeInterval::from(d) == ti, "TimeInterval -> Duration -> TimeInterval is not the identity");
+    let x = any_duration_bits(80);
+    let back = TimeInterval::from(x).0.to_bits() as i128;
+    assert!(back * 65536 <= db(x) && db(x) - back * 65536 < 65536, "Duration -> TimeInterval does not round toward minus infinity");
+    kani::cover!(db(x) < 0 && (db(x) & 0xffff) != 0, "negative duration with bits below 2^-16 ns");
+}
